@@ -99,6 +99,8 @@ pub struct Sut {
     pub doc: Value,
     pub addr: std::net::SocketAddr,
     pub entered: Box<dyn Fn() -> Option<u64>>,
+    /// header to send with every request on a versioned server
+    pub version_header: Option<(String, String)>,
     /// operations as (path template, method, operation object)
     pub ops: Vec<(String, String, Value)>,
 }
@@ -273,7 +275,12 @@ pub fn build_from_doc(doc: &Value, path_t: &str, method: &str, op: &Value, st: &
         stats.count("skip:websocket");
         return None;
     }
-    let mut path = path_t.to_string();
+    // literal parts of the documented path are data: percent-encode them
+    let mut path = path_t
+        .split('/')
+        .map(|seg| if seg.starts_with('{') && seg.ends_with('}') { seg.to_string() } else { crate::model::pct_encode_segment(seg.as_bytes(), 0, true) })
+        .collect::<Vec<_>>()
+        .join("/");
     let mut pairs: Vec<(String, String)> = vec![];
     let mut required_query = vec![];
     let pag_required: Vec<String> = op
@@ -386,6 +393,11 @@ pub fn build_from_doc(doc: &Value, path_t: &str, method: &str, op: &Value, st: &
 
 /// validate a response against what the document says for this operation
 pub fn judge_response(doc: &Value, op: &Value, resp: &http1::RawResp, what: &str) -> Result<(), Failure> {
+    judge_response_m(doc, op, resp, what, false)
+}
+
+/// `head`: the request was HEAD, so the response carries no body whatever the document says
+pub fn judge_response_m(doc: &Value, op: &Value, resp: &http1::RawResp, what: &str, head: bool) -> Result<(), Failure> {
     let responses = op["responses"].as_object().ok_or_else(|| Failure::new("doc-shape", "operation without responses"))?;
     let code = resp.status.to_string();
     let range = format!("{}XX", resp.status / 100);
@@ -397,6 +409,7 @@ pub fn judge_response(doc: &Value, op: &Value, resp: &http1::RawResp, what: &str
     let content = d.get("content").and_then(|c| c.as_object());
     let ct = resp.header("content-type").map(|c| c.split(';').next().unwrap().trim().to_ascii_lowercase());
     match content {
+        _ if head => {}
         None => {
             ensure!(resp.body.is_empty(), "undocumented-body", "{}: response {} is documented without content but has a body of {} bytes", what, resp.status, resp.body.len());
         }
@@ -454,9 +467,15 @@ pub fn check_doc_case(suts: &[Sut], rt: &tokio::runtime::Runtime, c: &DocCase, s
     }
     let (path_t, method, op) = &sut.ops[pick_idx(c.op, sut.ops.len())];
     let mut style = Style(c.seed);
-    let Some(req) = build_from_doc(&sut.doc, path_t, method, op, &mut style, st) else {
+    let Some(mut req) = build_from_doc(&sut.doc, path_t, method, op, &mut style, st) else {
         return Ok(());
     };
+    if let Some(h) = &sut.version_header {
+        req.head_extra.push(h.clone());
+        let (b, t) = assemble(&req.method, &req.path, &req.query_pairs, &req.head_extra, req.body.as_deref(), &mut style);
+        req.bytes = b;
+        req.target = t;
+    }
     let opid = op["operationId"].as_str().unwrap_or("?").to_string();
     let what = format!("[{}] {} {} ({})", sut.name, method, truncate(&req.target, 300), opid);
     st.count(&format!("sut:{}", sut.name));
@@ -496,7 +515,7 @@ pub fn check_doc_case(suts: &[Sut], rt: &tokio::runtime::Runtime, c: &DocCase, s
     } else {
         ensure!(resp.status < 400, format!("doc-valid-request-refused:{}", resp.status / 100), "{}: got {} {}", what, resp.status, truncate(&resp.body_text(), 300));
     }
-    judge_response(&sut.doc, op, &resp, &what)?;
+    judge_response_m(&sut.doc, op, &resp, &what, method == "HEAD")?;
     st.sample(|| json!({"request": truncate(&String::from_utf8_lossy(&req.bytes), 400), "status": resp.status, "response": truncate(&resp.body_text(), 200)}));
     // 2. omit each required query parameter in turn
     for name in &req.required_query {
@@ -520,7 +539,7 @@ pub fn check_doc_case(suts: &[Sut], rt: &tokio::runtime::Runtime, c: &DocCase, s
             ensure!(a == b, "missing-required-param-handler-ran", "{}: handler ran without required parameter {}", what, name);
         }
         // framework errors are valid against the documented error schema
-        judge_response(&sut.doc, op, &r, &format!("{} without {}", what, name))?;
+        judge_response_m(&sut.doc, op, &r, &format!("{} without {}", what, name), method == "HEAD")?;
     }
     Ok(())
 }
@@ -533,20 +552,43 @@ pub fn make_sut<C: dropshot::ServerContext>(
     entered: impl Fn(&C) -> Option<u64> + 'static,
     keep: &mut Vec<Box<dyn std::any::Any>>,
 ) -> Sut {
-    let doc = api.openapi(name, semver::Version::new(1, 0, 0)).json().expect("openapi");
+    make_sut_versioned(rt, name, api, ctx, entered, keep, None)
+}
+
+/// `version`: document and serve the API at this version (header-based policy)
+pub fn make_sut_versioned<C: dropshot::ServerContext>(
+    rt: &tokio::runtime::Runtime,
+    name: &str,
+    api: ApiDescription<C>,
+    ctx: C,
+    entered: impl Fn(&C) -> Option<u64> + 'static,
+    keep: &mut Vec<Box<dyn std::any::Any>>,
+    version: Option<&str>,
+) -> Sut {
+    let v = semver::Version::parse(version.unwrap_or("1.0.0")).unwrap();
+    let doc = api.openapi(name, v.clone()).json().expect("openapi");
     let _g = rt.enter();
     let cfg = dropshot::ConfigDropshot { default_request_body_max_bytes: 1 << 20, ..Default::default() };
-    let server = Arc::new(start_server(api, ctx, cfg, None).expect("server"));
+    let policy = version.map(|_| {
+        dropshot::VersionPolicy::Dynamic(Box::new(dropshot::ClientSpecifiesVersionInHeader::new(http::HeaderName::from_static("x-verif-version"), semver::Version::new(99, 0, 0))))
+    });
+    let version_header = version.map(|s| ("x-verif-version".to_string(), s.to_string()));
+    let server = Arc::new(start_server(api, ctx, cfg, policy).expect("server"));
     let addr = server.local_addr();
     let s2 = server.clone();
     keep.push(Box::new(server));
     let mut ops = ops_of(&doc);
     // the header-echo endpoint of the responses API refuses header names that are not tokens by design
     ops.retain(|(p, _, _)| !p.contains("withheaders"));
-    Sut { name: name.to_string(), ops, doc, addr, entered: Box::new(move || entered(s2.app_private())) }
+    Sut { name: name.to_string(), ops, doc, addr, entered: Box::new(move || entered(s2.app_private())), version_header }
 }
 
 pub fn run(ctx: &mut Ctx) {
+    run_with(ctx, |_, _, _| {});
+}
+
+/// `extra` may add further systems under test (generated API programs)
+pub fn run_with(ctx: &mut Ctx, extra: impl FnOnce(&tokio::runtime::Runtime, &mut Vec<Sut>, &mut Vec<Box<dyn std::any::Any>>)) {
     ctx.rule = "for each operation of several compiled APIs (echo round trip of ~60 zoo types as JSON bodies; typed path/query/body/form/multipart/raw echo endpoints; every response kind; paginated endpoints) a request is built from the OpenAPI document alone - documented path, all required parameters plus a random subset of optional ones, a body that an OpenAPI-3.0 validator accepts for the documented request schema under the documented content type - and sent to a live server. Oracle: accepted with a documented success status, handler entered once; response status, content type and body (validated by the OpenAPI-3.0 validator) are among those documented, required documented headers present; omitting each required query parameter gives a 4xx without handler entry, and that framework error validates against the documented error response. non-trivial = operation with >= 2 parameters or a structured body; distinct by request bytes. (The progen phase adds generated API programs, see C19's generator.)".into();
     ctx.assume("operations whose schemas use a string format the harness cannot generate are skipped and counted; path parameter values exclude '', '.', '..'; paginated operations honour x-dropshot-pagination.required");
     ctx.max_shrink_iters = 300;
@@ -559,11 +601,12 @@ pub fn run(ctx: &mut Ctx) {
         make_sut(&srt, "responses", crate::c12::resp_api_pub(), (), |_| None, &mut keep),
         make_sut(&srt, "pagination", crate::pagapi::pag_api(), crate::pagapi::PagCtx::default(), |c| Some(c.entered.load(Ordering::SeqCst)), &mut keep),
     ];
-    crate::genapi_hook::add_generated_suts(&srt, &mut suts, &mut keep);
-    let n = ctx.tier.pick(6000, 100000);
+    extra(&srt, &mut suts, &mut keep);
+    let n = ctx.tier.pick(12000, 150000);
     let nsuts = suts.len() as u8;
     let strat = (0u8..nsuts.max(1), any::<u16>(), any::<u64>()).prop_map(|(sut, op, seed)| DocCase { sut, op, seed });
     ctx.phase("doc_driven", n, strat, |c, st| check_doc_case(&suts, &rt, c, st));
     ctx.require_frac("doc_driven", "omitted_required_param", "sut:echo", 0.1);
+    drop(suts);
     drop(keep);
 }
